@@ -8,6 +8,7 @@ from harness.runner import Check, merge_stats, jdec
 from harness import collide as C
 from harness import protocol as P
 from harness import kernel as K
+from harness import forge as F
 from harness.world import State
 
 ck = Check('C10', 'model_checking')
@@ -136,6 +137,76 @@ def m_ksock(pre, ev, post):
                                    sorted((a, p, s.hex()) for a, p, s in m2)), w2.history)
 
 
+def _sad_check(w, name, sig, what):
+    e = w.endpoints[name]
+    if not e.alive:
+        return
+    o, m = P.sad_diff(e)
+    if o or m:
+        yield ('M-sad', '%s:orphan=%d:missing=%d' % (sig, len(o), len(m)),
+               '%s %s: untracked=%s absent=%s' % (name, what, sorted((a, p, x.hex()) for a, p, x in o),
+                                                  sorted((a, p, x.hex()) for a, p, x in m)), list(w.history))
+
+
+ROAMING = '192.168.0.77'
+
+
+def sm_foreign(world):
+    """what an RFC 7296 peer other than pyikev2 (or a network that re-addresses) may do at any moment, applied to every
+    explored state: (a) a correctly protected INFORMATIONAL request deleting any CHILD_SA the endpoint knows, sent on
+    any of the IKE_SAs it holds keys for (also one that has been replaced but is not gone yet); (b) a datagram in flight
+    arriving from another source address.  Whatever the endpoint makes of it, its kernel and its tracking agree
+    afterwards - at once, after everything has settled, and after its IKE_SAs have been torn down."""
+    for name, ep in sorted(world.endpoints.items()):
+        if not P.live(ep):
+            continue
+        kids = [(P.proto_num(c), bytes(c.outbound_spi)) for s in ep.controller.ike_sas for c in s.child_sas]
+        for idx, sa in enumerate(ep.controller.ike_sas):
+            if sa.peer_crypto is None or sa.state == State.DELETED:
+                continue
+            keys = F.Keys(sa.peer_crypto)
+            flags = 0x08 if not sa.is_initiator else 0
+            for proto, spi in kids:
+                data = F.protect(bytes(sa.spi_i), bytes(sa.spi_r), 37, flags, sa.peer_msg_id,
+                                 [(F.DELETE, F.d_body(3 if proto == 50 else 2, [spi]))], keys)
+                w = world.fork()
+                w.step(('inject', name, data, str(sa.peer_addr)))
+                w.history.append(('inject', name, data, str(sa.peer_addr)))
+                C.COVER['foreign:child-delete-on-%s' % sa.state.name] += 1
+                lab = 'foreign-delete-on-%s' % sa.state.name
+                yield from _sad_check(w, name, lab, 'after an authentic DELETE of CHILD_SA %s on its %s IKE_SA' % (spi.hex(), sa.state.name))
+                w2, status = P.drain(w)
+                yield from _sad_check(w2, name, lab + ':drained', 'after an authentic DELETE of CHILD_SA %s on its %s IKE_SA and '
+                                      'a drain' % (spi.hex(), sa.state.name))
+        for d in list(world.net):
+            if world.ep_by_addr(d.dst) is not ep or d.desc[0] in ('raw', 'enc'):
+                continue
+            w = world.fork()
+            w.step(('drop', d.id))
+            w.step(('inject', name, d.data, ROAMING))
+            w.history += [('drop', d.id), ('inject', name, d.data, ROAMING)]
+            C.COVER['foreign:other-source-address'] += 1
+            w2, status = P.drain(w)
+            e2 = w2.endpoints[name]
+            if not e2.alive:
+                continue
+            yield from _sad_check(w2, name, 'other-source:drained', 'after %s arrived from another source address and a drain'
+                                  % P.ev_label(world, ('deliver', d.id)))
+            # tear everything down at this endpoint: nothing may stay behind in its kernel
+            for i, s in enumerate(list(e2.controller.ike_sas)):
+                if s.state == State.ESTABLISHED:
+                    w2.step(('due', name, i, 'delete_ike'))
+                    w2.history.append(('due', name, i, 'delete_ike'))
+                    w2, status = P.drain(w2)
+                    break
+            e3 = w2.endpoints[name]
+            if e3.alive and not [x for x in e3.controller.ike_sas if x.child_sas] and e3.kernel.sad:
+                yield ('M-sad', 'other-source:teardown:left=%d' % len(e3.kernel.sad),
+                       '%s: after %s arrived from another source address and its IKE_SA was deleted later, %d SAs are still '
+                       'in the kernel: %s' % (name, P.ev_label(world, ('deliver', d.id)), len(e3.kernel.sad),
+                                              sorted((a, p, x.hex()) for a, p, x in e3.kernel.sad)), list(w2.history))
+
+
 def sm_drain_sad(world):
     """M-sad also at every step of the lossless drain from every state"""
     w, status = P.drain(world)
@@ -159,10 +230,18 @@ def m_sad_counted(pre, ev, post):
 
 MONITORS = [m_sad_counted, m_clauses, m_kfault, m_ksock, C.m_del]
 STATE_MONITORS = [sm_drain_sad]
+FOREIGN_SCENARIOS = [dict(config='match', kinds=('rekey_ike', 'soft', 'hard'), budget=dict(trig=1, fault=0)),
+                     dict(config='match', kinds=('rekey_ike', 'acquire'), budget=dict(trigA=1, trigB=1, fault=0))]
 
 
 def run(i):
     ex = C.explore(SCEN[i], MONITORS, STATE_MONITORS, quick=ck.quick, max_states=None if ck.quick else 400000, jobs=0 if ck.quick else ck.jobs)
+    return ex.summary()
+
+
+def run_foreign(i):
+    ex = C.explore(FOREIGN_SCENARIOS[i], [], [sm_foreign], quick=ck.quick, max_states=None if ck.quick else 200000,
+                   jobs=0 if ck.quick else ck.jobs)
     return ex.summary()
 
 
@@ -171,12 +250,14 @@ def replay(path):
     w = C.build(doc['scenario'])
     res = []
     hist = list(doc['history'])
+    foreign = doc['scenario'].get('foreign')
     for ev in hist:
         pre = w.fork()
         P.apply_event(w, ev)
-        for m in MONITORS:
-            res += list(m(pre, ev, w) or ())
-    res += list(sm_drain_sad(w))
+        if not foreign:
+            for m in MONITORS:
+                res += list(m(pre, ev, w) or ())
+    res += list(sm_foreign(w) if foreign else sm_drain_sad(w))
     for r in res:
         print('reproduced:', r[0], r[1], r[2])
     print('REPLAY %s' % ('reproduces a violation' if res else 'does not reproduce'))
@@ -194,13 +275,22 @@ def main():
         stats.append({k: v for k, v in sm.items() if k not in ('violation_list', 'samples')})
         cover.update(sm.get('cover', {}))
         print('  scenario', {k: v for k, v in stats[-1].items() if k != 'cover'})
+    # the same space with what a foreign peer / a re-addressing network may add at every state
+    fstats = []
+    for sc, sm in zip(FOREIGN_SCENARIOS, ck.pmap(run_foreign, range(len(FOREIGN_SCENARIOS))) if ck.quick
+                      else map(run_foreign, range(len(FOREIGN_SCENARIOS)))):
+        ck.add_explorer_violations(sm, dict(sc, foreign=True))
+        fstats.append({k: v for k, v in sm.items() if k not in ('violation_list', 'samples')})
+        cover.update(sm.get('cover', {}))
+        print('  foreign-peer scenario', {k: v for k, v in fstats[-1].items() if k != 'cover'})
+    stats += fstats
     m = merge_stats(stats)
     ck.coverage.update(states=m['states'], transitions=m['transitions'] + cover['kfault-reexecutions'],
                        max_depth=m['max_depth'], traces_validated_against_impl=m['replays_validated'],
                        abstraction_checks=m['abstraction_checks'], caps_hit=m['caps_hit'], exhaustive=m['completed'],
                        kernel_fault_reexecutions=cover['kfault-reexecutions'],
                        oracle_applicability=dict(sorted(cover.items())), per_scenario=stats, samples=samples,
-                       bounds=[C.label(s) for s in SCEN],
+                       bounds=[C.label(s) for s in SCEN] + ['foreign:' + C.label(s) for s in FOREIGN_SCENARIOS],
                        fault_model='each XFRM_MSG_NEWSA request of each explored transition refused once with '
                                    'ENOMEM and once with EEXIST; DELSA answers ESRCH only when the model SAD has '
                                    'no such entry')
